@@ -846,10 +846,23 @@ func (c *Core) finishClient(s *Sim, cl *Client) {
 		}
 		return
 	}
-	if drained && cfg.WriteTimeout == 0 && c.stopCalls == 0 && len(cl.rx) > 0 {
-		// (once Stop is invoked pending writes get a deadline, and one that
-		// expires half-way through a frame ends the stream with a torn frame
-		// and a write error, which is not a successful Write)
+	// Once Stop is invoked pending writes get a deadline, and one that expires
+	// half-way through a frame ends the stream with a torn frame (and a write
+	// error: not a successful Write). That needs simulated time to pass: an
+	// injected clock jump, or a client that was not reading so that a writer
+	// sat blocked until the deadline.
+	cutShort := false
+	if c.stopCalls > 0 {
+		cutShort = c.jumps > 0 || cl.wasPaused
+		for _, q := range cl.reqs {
+			for _, wr := range q.writes {
+				if strings.Contains(wr.err, "timeout") {
+					cutShort = true
+				}
+			}
+		}
+	}
+	if drained && cfg.WriteTimeout == 0 && !cutShort && len(cl.rx) > 0 {
 		s.Violate("C05", "stream", "trailing-partial-frame", fmt.Sprintf("%s: %d bytes left that are not a whole LDAPMessage", cl.name(), len(cl.rx)))
 	}
 	bystander := !cl.disturbed && cl.ended == "" && c.stopCalls == 0
